@@ -153,6 +153,21 @@ spec_mutant("SpinMutex: lock gives up after a failed attempt (LockReturnsOnlyWhe
             'ELSE pc\' = [pc EXCEPT ![t] = "backoff"] /\\ UNCHANGED res', 'ELSE pc\' = [pc EXCEPT ![t] = "idle"] /\\ UNCHANGED res',
             r"Invariant LockReturnsOnlyWhenHeld is violated")
 
+# ---- TLAPS: the mutual-exclusion proof must break when unlock() is allowed from outside the critical section
+def tlaps_mutant():
+    global ok_all
+    fresh_spec()
+    pth = os.path.join(SP, "SpinMutex.tla")
+    t = open(pth).read()
+    old = 'Unlock(t) ==\n  /\\ pc[t] \\in {"held", "held2"}'
+    assert old in t
+    open(pth, "w").write(t.replace(old, 'Unlock(t) ==\n  /\\ pc[t] \\in {"held", "held2", "backoff"}'))
+    p = subprocess.run(["timeout", "600", "tlapm", "--threads", "8", "--cleanfp", "--cache-dir", os.path.join(WD, "tlacache"), "SpinMutexProof.tla"],
+                       cwd=SP, stdout=subprocess.PIPE, stderr=subprocess.STDOUT, text=True)
+    hit = re.search(r"All \d+ obligations? proved", p.stdout) is None
+    print("%-70s %s" % ("SpinMutexProof: unlock from a waiting thread -> proof fails", "refuted as expected" if hit else "NOT REFUTED  <-- self-test failure"))
+    ok_all &= hit
+tlaps_mutant()
 # ---- binding demonstrations on a real recorded execution
 fresh_spec()
 rng = random.Random(5)
